@@ -159,7 +159,20 @@ Definition segP (pc : nat) (code : list insn) (ns ns' : nat) (f : sst -> list ss
   forall v K, ns' <= length (v_sl v) -> st_ok cs (sof v) ->
   Gen pc (pc + length code) K (RunV pc v K) (map (R v ns ns') (f (sof v))).
 
-Definition oke (g : nat) (e : expr) : Prop := wfe e /\ zok e /\ acheck g e = None.
+(* a counted repeat has lo <= hi (the parser rejects {3,2}) *)
+Fixpoint rok (e : expr) : Prop :=
+  match e with
+  | Repeat c lo hi _ => (lo <= hi)%N /\ rok c
+  | Concat es | Alt es => (fix go (l : list expr) : Prop := match l with [] => True | x :: r => rok x /\ go r end) es
+  | Group c | LookAround c _ | AtomicGroup c => rok c
+  | Conditional c y n => rok c /\ rok y /\ rok n
+  | _ => True
+  end.
+Fixpoint rok_list (l : list expr) : Prop := match l with [] => True | x :: r => rok x /\ rok_list r end.
+Lemma rok_concat es : rok (Concat es) = rok_list es. Proof. induction es; simpl in *; congruence. Qed.
+Lemma rok_alt es : rok (Alt es) = rok_list es. Proof. induction es; simpl in *; congruence. Qed.
+
+Definition oke (g : nat) (e : expr) : Prop := wfe e /\ zok e /\ acheck g e = None /\ rok e.
 
 Definition seg_stmt (e : expr) : Prop := forall g hc pc ns code ns',
   visit bs e g hc pc ns = inr (code, ns') -> nodeleg code -> At pc code ->
@@ -208,7 +221,7 @@ Proof.
 Qed.
 
 Ltac start e :=
-  intros g hc pc ns code ns' Hv Hnd HAt (Hw & Hz & Hac) Hns Hng; cbn [visit] in Hv;
+  intros g hc pc ns code ns' Hv Hnd HAt (Hw & Hz & Hac & Hrk) Hns Hng; cbn [visit] in Hv;
   destruct (negb hc && negb (hard bs g e)) eqn:Edel;
   [inversion Hv; subst code ns'; split; [lia|]; intros v K Hsl Hok;
    apply seg_deleg; auto using st_ok_ix | ].
@@ -362,9 +375,9 @@ Proof.
   apply bindc_inr in Hv as ([cc ns1] & Hc & Hr). inversion Hr; subst code ns'. clear Hr.
   apply At_cons in HAt as [Ha1 HAt]. apply At_app in HAt as [HAc HA2]. apply At_cons in HA2 as [Ha2 _].
   apply nodeleg_cons in Hnd as [_ Hnd]. apply nodeleg_app in Hnd as [Hndc _].
-  cbn [ngroups] in Hng. cbn [wfe] in Hw. cbn [zok] in Hz. cbn [acheck] in Hac.
+  cbn [ngroups] in Hng. cbn [wfe] in Hw. cbn [zok] in Hz. cbn [acheck] in Hac. cbn [rok] in Hrk.
   replace (pc + 1) with (S pc) in Hc by lia.
-  destruct (IH (S g) hc (S pc) ns cc ns1 Hc Hndc HAc (conj Hw (conj Hz Hac)) Hns ltac:(lia)) as [Hmono IHc].
+  destruct (IH (S g) hc (S pc) ns cc ns1 Hc Hndc HAc (conj Hw (conj Hz (conj Hac Hrk))) Hns ltac:(lia)) as [Hmono IHc].
   split; [exact Hmono|]. intros v K Hsl Hok.
   destruct v as [ix sl aux]. cbn [sem sof v_ix v_sl] in *.
   set (v1 := {| v_ix := ix; v_sl := upd sl (g * 2) (V ix); v_aux := aux |}).
@@ -403,9 +416,9 @@ Proof.
   apply bindc_inr in Hv as ([cc ns1] & Hc & Hr). inversion Hr; subst code ns'. clear Hr.
   apply At_cons in HAt as [Ha1 HAt]. apply At_app in HAt as [HAc HA2]. apply At_cons in HA2 as [Ha2 _].
   apply nodeleg_cons in Hnd as [_ Hnd]. apply nodeleg_app in Hnd as [Hndc _].
-  cbn [ngroups] in Hng. cbn [wfe] in Hw. cbn [zok] in Hz. cbn [acheck] in Hac.
+  cbn [ngroups] in Hng. cbn [wfe] in Hw. cbn [zok] in Hz. cbn [acheck] in Hac. cbn [rok] in Hrk.
   replace (pc + 1) with (S pc) in Hc by lia.
-  destruct (IH g false (S pc) ns cc ns1 Hc Hndc HAc (conj Hw (conj Hz Hac)) Hns ltac:(lia)) as [Hmono IHc].
+  destruct (IH g false (S pc) ns cc ns1 Hc Hndc HAc (conj Hw (conj Hz (conj Hac Hrk))) Hns ltac:(lia)) as [Hmono IHc].
   split; [exact Hmono|]. intros v K Hsl Hok.
   destruct v as [ix sl aux]. cbn [sem]. 
   set (v1 := {| v_ix := ix; v_sl := sl; v_aux := aux ++ [V (length K)] |}).
@@ -464,7 +477,7 @@ Definition okl (g : nat) (l : list expr) : Prop := oke g (Concat l).
 
 Lemma okl_cons g x r : okl g (x :: r) <-> oke g x /\ okl (g + ngroups x) r.
 Proof.
-  unfold okl, oke. rewrite !wfe_concat, !zok_concat, !acheck_concat. cbn [wfe_list zok_list acheck_list].
+  unfold okl, oke. rewrite !wfe_concat, !zok_concat, !acheck_concat, !rok_concat. cbn [wfe_list zok_list acheck_list rok_list].
   destruct (acheck g x); intuition discriminate.
 Qed.
 Lemma ngl_cons x a : ngroups_list (x :: a) = ngroups x + ngroups_list a. Proof. reflexivity. Qed.
@@ -805,9 +818,9 @@ Proof.
   destruct (negb hc && negb (hard bs g (Alt es))) eqn:Edel.
   { inversion Hv; subst code ns'. split; [lia|]. intros v K Hsl Hokv. apply seg_deleg; auto using st_ok_ix. }
   destruct (alt_codes hc g pc ns es) as [er|[cds ns1]] eqn:Hc; [discriminate|]. inversion Hv; subst code ns'. clear Hv.
-  destruct Hok as (Hw & Hz & Hac). rewrite acheck_alt in Hac. destruct es as [|x r]; [discriminate|].
-  rewrite ngroups_alt in Hng. rewrite wfe_alt in Hw. rewrite zok_alt in Hz.
-  assert (Hokl : okl g (x :: r)) by (unfold okl, oke; rewrite wfe_concat, zok_concat, acheck_concat; auto).
+  destruct Hok as (Hw & Hz & Hac & Hr). rewrite acheck_alt in Hac. destruct es as [|x r]; [discriminate|].
+  rewrite ngroups_alt in Hng. rewrite wfe_alt in Hw. rewrite zok_alt in Hz. rewrite rok_alt in Hr.
+  assert (Hokl : okl g (x :: r)) by (unfold okl, oke; rewrite wfe_concat, zok_concat, acheck_concat, rok_concat; auto).
   destruct (seg_alts hc r x IH g pc ns cds ns1 Hc Hnd HAt Hokl Hns Hng) as [M G]. split; auto.
   intros v K Hsl Hokv. rewrite alt_layout_length, sem_alt_eq. apply G; auto.
 Qed.
@@ -820,6 +833,11 @@ Lemma step_jmpV pc v K x : at_ pc (IJmp x) -> mstep (RunV pc v K) = RunV x v K.
 Proof. intros H. unfold RunV. now rewrite (step_jmp cx P pc _ _ _ K x H). Qed.
 Lemma fail_alt y v K : mstep (Fail (alt_of y v :: K)) = RunV y v K.
 Proof. reflexivity. Qed.
+
+Lemma nth_upd_same {A} (l : list A) i v : i < length l -> nth_error (upd l i v) i = Some v.
+Proof. intros H. rewrite nth_error_upd, Nat.eqb_refl. destruct (Nat.ltb_spec i (length l)); [reflexivity|lia]. Qed.
+Lemma nth_upd_other {A} (l : list A) i j v : i <> j -> nth_error (upd l i v) j = nth_error l j.
+Proof. intros H. rewrite nth_error_upd. destruct (Nat.eqb_spec i j); [contradiction|reflexivity]. Qed.
 
 Section Loop.
 Variables (p q bst bend k0 nsb ns1 : nat) (body : sst -> list sst).
@@ -899,10 +917,6 @@ Proof.
 Qed.
 
 (* ----- RepeatEpsilon: rep = k0, check = k0 + 1, body slots from k0 + 2 ----- *)
-Lemma nth_upd_same {A} (l : list A) i v : i < length l -> nth_error (upd l i v) i = Some v.
-Proof. intros H. rewrite nth_error_upd, Nat.eqb_refl. destruct (Nat.ltb_spec i (length l)); [reflexivity|lia]. Qed.
-Lemma nth_upd_other {A} (l : list A) i j v : i <> j -> nth_error (upd l i v) j = nth_error l j.
-Proof. intros H. rewrite nth_error_upd. destruct (Nat.eqb_spec i j); [contradiction|reflexivity]. Qed.
 
 Definition setsl (v : vst) (sl : list val) : vst := {| v_ix := v_ix v; v_sl := sl; v_aux := v_aux v |}.
 
@@ -1125,5 +1139,165 @@ Qed.
 End Counted.
 
 End Loop.
+
+(* ---------- Repeat ---------- *)
+
+Lemma body_pres c g : wfe c -> forall st st', st_ok cs st -> In st' (sem cx c fuel g st) ->
+  st_ok cs st' /\ fst st <= fst st'.
+Proof.
+  intros Hw st st' Hs Hin. destruct (sem_sound cs W cx Htext Hlen c Hw fuel g st st' Hs Hin) as (n & [Hok Hd] & _).
+  split; auto. apply (dist_bnd cs W) in Hd. tauto.
+Qed.
+
+Lemma body_adv c g : wfe c -> min_size c <> 0%N -> forall st st', st_ok cs st -> In st' (sem cx c fuel g st) ->
+  fst st < fst st'.
+Proof.
+  intros Hw Hm st st' Hs Hin. destruct (sem_sound cs W cx Htext Hlen c Hw fuel g st st' Hs Hin) as (n & [Hok Hd] & Hmin & _).
+  apply dist_ge in Hd. lia.
+Qed.
+
+Lemma flat_map_single {A B} (f : A -> list B) a : flat_map f [a] = f a.
+Proof. cbn. apply app_nil_r. Qed.
+Lemma flat_map_id {A} (l : list A) : flat_map (fun s => [s]) l = l.
+Proof. induction l; simpl; congruence. Qed.
+
+Lemma one_ne_max : N.eqb 1 usize_max = false. Proof. reflexivity. Qed.
+
+Lemma sem_repeat_eq c lo hi gr fu g st :
+  sem cx (Repeat c lo hi gr) fu g st =
+  flat_map (fun s1 => if N.eqb hi usize_max then rep_opt_u (sem cx c fu g) gr fu s1
+                      else rep_opt_b (sem cx c fu g) gr (N.to_nat hi - N.to_nat lo) s1)
+           (rep_must (sem cx c fu g) (N.to_nat lo) st).
+Proof. destruct st. reflexivity. Qed.
+
+Lemma seg_repeat c lo hi gr : seg_stmt c -> seg_stmt (Repeat c lo hi gr).
+Proof.
+  intros IH. start (Repeat c lo hi gr).
+  cbn [wfe] in Hw. cbn [zok] in Hz. cbn [acheck] in Hac. cbn [rok] in Hrk. destruct Hrk as [Hlh Hrk]. cbn [ngroups] in Hng.
+  pose proof (body_pres c g Hw) as Hpres.
+  assert (Hoc : oke g c) by (repeat split; auto).
+  destruct (N.eqb lo 0 && N.eqb hi 1) eqn:EA.
+  { (* e? *)
+    apply andb_true_iff in EA as [E1 E2]. apply N.eqb_eq in E1, E2. subst lo hi.
+    apply bindc_inr in Hv as ([cc ns1] & Hc & Hr). inversion Hr; subst code ns'. clear Hr.
+    apply At_cons in HAt as [Ha1 HAc]. apply nodeleg_cons in Hnd as [_ Hndc].
+    replace (pc + 1) with (S pc) in * by lia.
+    destruct (IH g hc (S pc) ns cc ns1 Hc Hndc HAc Hoc Hns Hng) as [Hmono IHc].
+    split; auto. intros v K Hsl Hok. rewrite sem_repeat_eq. rewrite one_ne_max. change (N.to_nat 1 - N.to_nat 0) with 1.
+    change (N.to_nat 0) with 0. cbn [rep_must].
+    rewrite flat_map_single. cbn [rep_opt_b]. rewrite flat_map_id. cbn [length].
+    assert (Hbody : forall v K, ns1 <= length (v_sl v) -> st_ok cs (sof v) ->
+              Gen pc (S pc + length cc) K (RunV (S pc) v K) (map (R v ns ns1) (sem cx c fuel g (sof v)))).
+    { intros v' K' H1 H2. apply Gen_weaken with (p := S pc); [lia|]. now apply IHc. }
+    replace (pc + S (length cc)) with (S pc + length cc) by lia.
+    apply (choice_gen pc (S pc + length cc) (S pc) (S pc + length cc) ns ns ns1 ltac:(lia) ltac:(lia) ltac:(lia) ltac:(lia) ltac:(lia) gr _ v v K).
+    - apply steps_step. destruct gr; apply step_splitV; exact Ha1.
+    - apply ext_refl.
+    - intros K'. now apply Hbody. }
+  destruct (N.eqb hi usize_max && N.eqb (min_size c) 0) eqn:EB.
+  { (* RepeatEpsilon *)
+    apply andb_true_iff in EB as [E1 E2]. apply N.eqb_eq in E1, E2.
+    apply bindc_inr in Hv as ([cc ns1] & Hc & Hr). inversion Hr; subst code ns'. clear Hr.
+    apply At_cons in HAt as [Ha1 HAt]. apply At_cons in HAt as [Ha2 HAt]. apply At_app in HAt as [HAc HAj]. apply At_cons in HAj as [Ha3 _].
+    apply nodeleg_cons in Hnd as [_ Hnd]. apply nodeleg_cons in Hnd as [_ Hnd]. apply nodeleg_app in Hnd as [Hndc _].
+    replace (pc + 2) with (S (S pc)) in * by lia.
+    destruct (IH g _ (S (S pc)) (ns + 2) cc ns1 Hc Hndc HAc Hoc ltac:(lia) Hng) as [Hmono IHc].
+    split; [lia|]. intros v K Hsl Hok. rewrite sem_repeat_eq. rewrite E1, N.eqb_refl.
+    set (q := pc + length (ISave0 ns :: (if gr then IRepeatEpsilonGr lo (S (S pc) + length cc + 1) ns (ns + 1)
+                                          else IRepeatEpsilonNg lo (S (S pc) + length cc + 1) ns (ns + 1)) :: cc ++ [IJmp (pc + 1)])).
+    assert (Eq : q = S (S pc) + length cc + 1) by (unfold q; cbn [length]; rewrite app_length; cbn [length]; lia).
+    rewrite <- Eq in Ha2.
+    assert (Hbody : forall v K, ns1 <= length (v_sl v) -> st_ok cs (sof v) ->
+              Gen pc (S (S pc) + length cc) K (RunV (S (S pc)) v K) (map (R v (ns + 2) ns1) (sem cx c fuel g (sof v)))).
+    { intros v' K' H1 H2. apply Gen_weaken with (p := S (S pc)); [lia|]. now apply IHc. }
+    apply Gen_step. unfold RunV at 1. rewrite (step_save0 cx P pc _ _ _ K ns Ha1) by lia.
+    set (v1 := setsl v (upd (v_sl v) ns (V 0))).
+    change (Run (S pc) (v_ix v) (upd (v_sl v) ns (V 0)) (v_aux v) K) with (RunV (S pc) v1 K).
+    assert (Hs1 : sof v1 = sof v) by (apply sof_upd; lia).
+    assert (He1 : ext ns ns1 v v1).
+    { apply (ext_upd pc q (S (S pc)) (S (S pc) + length cc) ns (ns + 2) ns1 ltac:(lia) ltac:(lia) ltac:(lia) ltac:(lia) ltac:(lia)); [apply ext_refl|lia]. }
+    destruct (nth_error (v_sl v1) (ns + 1)) as [ck|] eqn:Eck.
+    2:{ apply nth_error_None in Eck. unfold v1 in Eck; cbn [setsl v_sl] in Eck. rewrite upd_length in Eck. lia. }
+    rewrite <- Hs1.
+    apply (eps_must pc q (S (S pc)) (S (S pc) + length cc) ns (ns + 2) ns1 (sem cx c fuel g)
+             ltac:(lia) ltac:(lia) ltac:(lia) ltac:(lia) ltac:(lia) Hbody Hpres (S pc) gr lo) with (c := 0) (ck := ck); auto.
+    - intros v' K'. apply steps_step. apply step_jmpV. replace (pc + 1) with (S pc) in Ha3 by lia. exact Ha3.
+    - unfold v1; cbn [setsl v_sl]. rewrite upd_length. lia.
+    - now rewrite Hs1.
+    - unfold v1; cbn [setsl v_sl]. apply nth_upd_same. lia. }
+  assert (Hadv : hi = usize_max -> forall st st', st_ok cs st -> In st' (sem cx c fuel g st) -> fst st < fst st').
+  { intros Hm. apply body_adv; auto. intros Hz0. rewrite Hm, Hz0 in EB. discriminate. }
+  destruct (N.eqb lo 0 && N.eqb hi usize_max) eqn:EC.
+  { (* star *)
+    apply andb_true_iff in EC as [E1 E2]. apply N.eqb_eq in E1, E2. subst lo.
+    apply bindc_inr in Hv as ([cc ns1] & Hc & Hr). inversion Hr; subst code ns'. clear Hr.
+    apply At_cons in HAt as [Ha1 HAt]. apply At_app in HAt as [HAc HAj]. apply At_cons in HAj as [Ha3 _].
+    apply nodeleg_cons in Hnd as [_ Hnd]. apply nodeleg_app in Hnd as [Hndc _].
+    replace (pc + 1) with (S pc) in * by lia.
+    destruct (IH g _ (S pc) ns cc ns1 Hc Hndc HAc Hoc Hns Hng) as [Hmono IHc].
+    split; auto. intros v K Hsl Hok. rewrite sem_repeat_eq. rewrite E2, N.eqb_refl.
+    change (N.to_nat 0) with 0. cbn [rep_must].
+    rewrite flat_map_single.
+    set (q := pc + length ((if gr then ISplit (S pc) (S pc + length cc + 1) else ISplit (S pc + length cc + 1) (S pc)) :: cc ++ [IJmp pc])).
+    assert (Eq : q = S pc + length cc + 1) by (unfold q; cbn [length]; rewrite app_length; cbn [length]; lia).
+    rewrite <- Eq in Ha1.
+    assert (Hbody : forall v K, ns1 <= length (v_sl v) -> st_ok cs (sof v) ->
+              Gen pc (S pc + length cc) K (RunV (S pc) v K) (map (R v ns ns1) (sem cx c fuel g (sof v)))).
+    { intros v' K' H1 H2. apply Gen_weaken with (p := S pc); [lia|]. now apply IHc. }
+    pose proof (st_ok_ix _ Hok).
+    apply (star_loop pc q (S pc) (S pc + length cc) ns ns ns1 (sem cx c fuel g)
+             ltac:(lia) ltac:(lia) ltac:(lia) ltac:(lia) ltac:(lia) Hbody Hpres pc gr); auto.
+    - intros v' K'. apply steps_step. apply step_jmpV. exact Ha3.
+    - apply ext_refl.
+    - lia. }
+  destruct (N.eqb lo 1 && N.eqb hi usize_max) eqn:ED.
+  { (* plus *)
+    apply andb_true_iff in ED as [E1 E2]. apply N.eqb_eq in E1, E2. subst lo.
+    apply bindc_inr in Hv as ([cc ns1] & Hc & Hr). inversion Hr; subst code ns'. clear Hr.
+    apply At_app in HAt as [HAc HAj]. apply At_cons in HAj as [Ha3 _].
+    apply nodeleg_app in Hnd as [Hndc _].
+    destruct (IH g _ pc ns cc ns1 Hc Hndc HAc Hoc Hns Hng) as [Hmono IHc].
+    split; auto. intros v K Hsl Hok. rewrite sem_repeat_eq. rewrite E2, N.eqb_refl.
+    change (N.to_nat 1) with 1. cbn [rep_must]. rewrite flat_map_id.
+    set (q := pc + length (cc ++ [if gr then ISplit pc (pc + length cc + 1) else ISplit (pc + length cc + 1) pc])).
+    assert (Eq : q = pc + length cc + 1) by (unfold q; rewrite app_length; cbn [length]; lia).
+    rewrite <- Eq in Ha3.
+    apply (body_then pc q pc (pc + length cc) ns ns ns1 (sem cx c fuel g) ltac:(lia) ltac:(lia) ltac:(lia) ltac:(lia) ltac:(lia) IHc); auto.
+    intros a v2 K2 Hin HR.
+    destruct (ext_R pc q pc (pc + length cc) ns ns ns1 ltac:(lia) ltac:(lia) ltac:(lia) ltac:(lia) ltac:(lia) v v a v2 (ext_refl ns ns1 v) HR) as (He2 & Es & Hl2).
+    destruct (Hpres _ _ Hok Hin) as [Hoka _]. rewrite <- Es in Hoka.
+    pose proof (st_ok_ix _ Hoka). rewrite <- Es.
+    apply (star_loop pc q pc (pc + length cc) ns ns ns1 (sem cx c fuel g)
+             ltac:(lia) ltac:(lia) ltac:(lia) ltac:(lia) ltac:(lia) IHc Hpres (pc + length cc) gr); auto; try lia.
+    intros v' K'. apply steps_refl. }
+  (* counted *)
+  apply bindc_inr in Hv as ([cc ns1] & Hc & Hr). inversion Hr; subst code ns'. clear Hr.
+  apply At_cons in HAt as [Ha1 HAt]. apply At_cons in HAt as [Ha2 HAt]. apply At_app in HAt as [HAc HAj]. apply At_cons in HAj as [Ha3 _].
+  apply nodeleg_cons in Hnd as [_ Hnd]. apply nodeleg_cons in Hnd as [_ Hnd]. apply nodeleg_app in Hnd as [Hndc _].
+  replace (pc + 2) with (S (S pc)) in * by lia.
+  destruct (IH g _ (S (S pc)) (ns + 1) cc ns1 Hc Hndc HAc Hoc ltac:(lia) Hng) as [Hmono IHc].
+  split; [lia|]. intros v K Hsl Hok. rewrite sem_repeat_eq.
+  set (q := pc + length (ISave0 ns :: (if gr then IRepeatGr lo hi (S (S pc) + length cc + 1) ns
+                                        else IRepeatNg lo hi (S (S pc) + length cc + 1) ns) :: cc ++ [IJmp (pc + 1)])).
+  assert (Eq : q = S (S pc) + length cc + 1) by (unfold q; cbn [length]; rewrite app_length; cbn [length]; lia).
+  rewrite <- Eq in Ha2.
+  assert (Hbody : forall v K, ns1 <= length (v_sl v) -> st_ok cs (sof v) ->
+            Gen pc (S (S pc) + length cc) K (RunV (S (S pc)) v K) (map (R v (ns + 1) ns1) (sem cx c fuel g (sof v)))).
+  { intros v' K' H1 H2. apply Gen_weaken with (p := S (S pc)); [lia|]. now apply IHc. }
+  apply Gen_step. unfold RunV at 1. rewrite (step_save0 cx P pc _ _ _ K ns Ha1) by lia.
+  set (v1 := setsl v (upd (v_sl v) ns (V 0))).
+  change (Run (S pc) (v_ix v) (upd (v_sl v) ns (V 0)) (v_aux v) K) with (RunV (S pc) v1 K).
+  assert (Hs1 : sof v1 = sof v) by (apply sof_upd; lia).
+  assert (He1 : ext ns ns1 v v1).
+  { apply (ext_upd pc q (S (S pc)) (S (S pc) + length cc) ns (ns + 1) ns1 ltac:(lia) ltac:(lia) ltac:(lia) ltac:(lia) ltac:(lia)); [apply ext_refl|lia]. }
+  rewrite <- Hs1.
+  apply (cnt_must pc q (S (S pc)) (S (S pc) + length cc) ns (ns + 1) ns1 (sem cx c fuel g)
+           ltac:(lia) ltac:(lia) ltac:(lia) ltac:(lia) ltac:(lia) Hbody Hpres (S pc) gr lo hi) with (c := 0); auto.
+  - intros v' K'. apply steps_step. apply step_jmpV. replace (pc + 1) with (S pc) in Ha3 by lia. exact Ha3.
+  - unfold v1; cbn [setsl v_sl]. rewrite upd_length. lia.
+  - now rewrite Hs1.
+  - unfold v1; cbn [setsl v_sl]. apply nth_upd_same. lia.
+  - intros; lia.
+Qed.
 
 End CC.
